@@ -106,12 +106,43 @@ def isCall1 : Term → Bool
   | .app "call" (.cons _ .nil) => true
   | _ => false
 
-/-- the control constructs as goals: `call(G)`, `(C -> T ; E)`, `(C -> T)`, `once(G)`, `\\+ G` -/
-def ctlGoal : Term → Bool
+/-- the control constructs of stage 3 as goals: `call(G)`, `(C -> T ; E)`, `(C -> T)`, `once(G)`, `\\+ G` -/
+def ctlGoal1 : Term → Bool
   | .app "call" (.cons _ .nil) => true
   | .app "once" (.cons _ .nil) => true
   | .app "\\+" (.cons _ .nil) => true
   | .app ";" (.cons (.app "->" (.cons _ (.cons _ .nil))) (.cons _ .nil)) => true
+  | .app "->" (.cons _ (.cons _ .nil)) => true
+  | _ => false
+
+/-- `call(G, A1, …, Ak)`, 1 ≤ k ≤ 7: call/2 … call/8 (the Go engine defines call/1 … call/8; for more
+    arguments the VM MODEL and the reference disagree, see `VmRefinesSldCtlFullStatement`) -/
+def callNGoal : Term → Bool
+  | .app "call" (.cons _ (.cons _ es)) => decide (es.length ≤ 6)
+  | _ => false
+
+/-- the first alternative of a disjunction that is run as a GOAL: callable and not `->`/2 — whatever
+    its variables are bound to, the heads of the two if-then-else clauses of `;`/2 do not unify with
+    the goal -/
+def disjHead : Term → Bool
+  | .atom _ => true
+  | .app f as => !(f == "->" && as.length == 2)
+  | _ => false
+
+/-- a disjunction `(A ; B)` that is not an if-then-else, as a goal (a conjunct of a conjunction) -/
+def disjGoal : Term → Bool
+  | .app ";" (.cons a (.cons _ .nil)) => disjHead a
+  | _ => false
+
+/-- the control constructs as goals (the largest fragment): those of stage 3 (`ctlGoal1`),
+    call/N, 2 ≤ N ≤ 8 (`callNGoal`), and the disjunction as a goal (`disjGoal`) -/
+def ctlGoal : Term → Bool
+  | .app "call" (.cons _ .nil) => true
+  | .app "call" (.cons _ (.cons _ es)) => decide (es.length ≤ 6)
+  | .app "once" (.cons _ .nil) => true
+  | .app "\\+" (.cons _ .nil) => true
+  | .app ";" (.cons (.app "->" (.cons _ (.cons _ .nil))) (.cons _ .nil)) => true
+  | .app ";" (.cons a (.cons _ .nil)) => disjHead a
   | .app "->" (.cons _ (.cons _ .nil)) => true
   | _ => false
 
@@ -122,7 +153,22 @@ def stepGoal (s : Bool) (t : Term) : Bool := hornGoal t || (s && ctlGoal t)
 /-- a goal of the fragment: the cut or a `stepGoal` -/
 def goalS (s : Bool) (t : Term) : Bool := t == .atom "!" || stepGoal s t
 
-def bodyS (s : Bool) (b : Term) : Bool := (SLD.conjuncts b).all (goalS s)
+/-- a body with ONE alternative: a conjunction of goals of the fragment that is not itself a
+    disjunction (a disjunction that is the whole body gives one clause per alternative, `dbodyS`) -/
+def bodyS (s : Bool) (b : Term) : Bool := (SLD.conjuncts b).all (goalS s) && (SLD.disjuncts b).length == 1
+
+theorem bodyS_all {s : Bool} {b : Term} (h : bodyS s b = true) : ∀ t ∈ SLD.conjuncts b, goalS s t = true := by
+  simp only [bodyS, Bool.and_eq_true, List.all_eq_true] at h
+  exact h.1
+
+theorem bodyS_single {s : Bool} {b : Term} (h : bodyS s b = true) : (SLD.disjuncts b).length = 1 := by
+  simp only [bodyS, Bool.and_eq_true, beq_iff_eq] at h
+  exact h.2
+
+theorem bodyS_mk {s : Bool} {b : Term} (h1 : ∀ t ∈ SLD.conjuncts b, goalS s t = true)
+    (h2 : (SLD.disjuncts b).length = 1) : bodyS s b = true := by
+  simp only [bodyS, Bool.and_eq_true, List.all_eq_true, beq_iff_eq]
+  exact ⟨h1, h2⟩
 
 /-- a body whose top-level disjuncts are bodies: what `call/1` may be given -/
 def dbodyS (s : Bool) (b : Term) : Bool := (SLD.disjuncts b).all (bodyS s)
@@ -167,15 +213,52 @@ structure CutFrag (prog : List Term) (query : Term) : Prop where
   small : SLD.maxVar query + 10 ≤ 1000000
 
 theorem goalS_false (t : Term) : goalS false t = cutGoal t := by simp [goalS, stepGoal, cutGoal]
-theorem bodyS_false (b : Term) : bodyS false b = bodyOK b := by
-  simp only [bodyS, bodyOK]; congr 1; funext t; exact goalS_false t
-/-- **the fragment (stage 3)**: stage 2 + the control constructs `ctlGoal` as goals of clause bodies,
+
+/-! ### fragments by a predicate `P` on the control goals
+
+  The proofs work with `FragS true` (all control goals proved so far, `ctlGoal`); the named fragments
+  of the stages are the instances `FragG P` for the control goals `P` of the stage. -/
+
+def goalG (P : Term → Bool) (t : Term) : Bool := t == .atom "!" || (hornGoal t || P t)
+def bodyG (P : Term → Bool) (b : Term) : Bool := (SLD.conjuncts b).all (goalG P)
+def dbodyG (P : Term → Bool) (b : Term) : Bool := (SLD.disjuncts b).all (bodyG P)
+def clauseG (P : Term → Bool) (c : Term) : Bool :=
+  wfT c && hornHead (SLD.headBody c).1 && dbodyG P (SLD.headBody c).2
+
+structure FragG (P : Term → Bool) (prog : List Term) (query : Term) : Prop where
+  clauses : ∀ c ∈ prog, clauseG P c = true
+  goal : dbodyG P query = true
+  wf : wfT query = true
+  nonvar : ∀ v, query ≠ .var v
+  small : SLD.maxVar query + 10 ≤ 1000000
+
+/-- **the fragment (stage 3)**: stage 2 + the control constructs `ctlGoal1` as goals of clause bodies,
     of the query and of the goals that are called: `call/1` (also as a variable in goal position),
     if-then-else, if-then, `once/1`, `\\+`/1; + disjunction at the top level of clause bodies, of the
-    query and of called goals (`dbodyS`).  Decidable. -/
-abbrev CtlFrag (prog : List Term) (query : Term) : Prop := FragS true prog query
+    query and of called goals (`dbodyG`).  Decidable. -/
+abbrev CtlFrag (prog : List Term) (query : Term) : Prop := FragG ctlGoal1 prog query
 /-- (the name under which stage 3a was delivered) -/
-abbrev CallFrag (prog : List Term) (query : Term) : Prop := FragS true prog query
+abbrev CallFrag (prog : List Term) (query : Term) : Prop := FragG ctlGoal1 prog query
+/-- **the fragment (stage 4a)**: stage 3 + `call/N`, 2 ≤ N ≤ 8, as a goal of clause bodies, of the
+    query and of called goals. -/
+abbrev CallNFrag (prog : List Term) (query : Term) : Prop :=
+  FragG (fun t => ctlGoal1 t || callNGoal t) prog query
+
+theorem ctlGoal1_sub {t : Term} (h : ctlGoal1 t = true) : ctlGoal t = true := by
+  unfold ctlGoal1 at h
+  split at h
+  · rfl
+  · rfl
+  · rfl
+  · rfl
+  · simp [ctlGoal]
+  · cases h
+
+theorem callNGoal_sub {t : Term} (h : callNGoal t = true) : ctlGoal t = true := by
+  unfold callNGoal at h
+  split at h
+  · simpa [ctlGoal] using h
+  · cases h
 
 theorem goalS_mono {t : Term} (h : goalS false t = true) (s : Bool) : goalS s t = true := by
   simp only [goalS, stepGoal, Bool.or_eq_true, Bool.and_eq_true, Bool.false_and, Bool.false_eq_true,
@@ -391,14 +474,18 @@ inductive Ctl (g : Term) : Prop
   | ifthen (c t : Term) : g = .app "->" (.cons c (.cons t .nil)) → Ctl g
   | once (x : Term) : g = .app "once" (.cons x .nil) → Ctl g
   | neg (x : Term) : g = .app "\\+" (.cons x .nil) → Ctl g
+  | callN (x e : Term) (es : Args) : g = .app "call" (.cons x (.cons e es)) → es.length ≤ 6 → Ctl g
+  | disj (a b : Term) : g = .app ";" (.cons a (.cons b .nil)) → disjHead a = true → Ctl g
 
 theorem ctlGoal_shape {g : Term} (h : ctlGoal g = true) : Ctl g := by
   unfold ctlGoal at h
   split at h
   · exact .call _ rfl
+  · exact .callN _ _ _ rfl (by simpa using h)
   · exact .once _ rfl
   · exact .neg _ rfl
   · exact .ite _ _ _ rfl
+  · exact .disj _ _ rfl h
   · exact .ifthen _ _ rfl
   · cases h
 
@@ -409,6 +496,8 @@ theorem ctlGoal_app {g : Term} (h : ctlGoal g = true) : ∃ f a as, g = .app f (
   | ifthen c t hx => exact ⟨_, _, _, hx⟩
   | once x hx => exact ⟨_, _, _, hx⟩
   | neg x hx => exact ⟨_, _, _, hx⟩
+  | callN x e es hx _ => exact ⟨_, _, _, hx⟩
+  | disj a b hx _ => exact ⟨_, _, _, hx⟩
 
 /-- a `stepGoal`: a Horn goal or (with control constructs) a control construct -/
 theorem stepGoal_cases {s : Bool} {g : Term} (h : stepGoal s g = true) :
@@ -429,29 +518,46 @@ theorem not_horn_reserved {f : String} {as : Args} (hf : f ∈ reservedNames) (h
     · exact hne h2.1
     · exact reserved_not_user h2 hf
 
-theorem disjuncts_horn (b : Term) {fl : Bool} (h : bodyS fl b = true) : SLD.disjuncts b = [b] := by
+theorem disjuncts_ne_nil' (b : Term) : SLD.disjuncts b ≠ [] := by
   unfold SLD.disjuncts
+  split <;> simp
+
+/-- a term with one top-level disjunct is that disjunct -/
+theorem disjuncts_single {b : Term} (h : (SLD.disjuncts b).length = 1) : SLD.disjuncts b = [b] := by
+  unfold SLD.disjuncts at h ⊢
   split
   · rfl
   · rename_i a b' hna
     exfalso
-    have : SLD.conjuncts (.app ";" (.cons a (.cons b' .nil))) = [.app ";" (.cons a (.cons b' .nil))] := by
-      simp [SLD.conjuncts, SLD.wrapVar]
-    simp only [bodyS, this, List.all_cons, List.all_nil, Bool.and_true] at h
-    rcases goalS_cases h with h | h
-    · simp [SLD.mk2] at h
-    rcases stepGoal_cases h with h | ⟨_, hc⟩
-    · rw [not_horn_reserved (by decide) (by decide)] at h; cases h
-    · cases hc with
-      | call x' hx' => simp at hx'
-      | ite c t e hx' =>
-        simp only [Term.app.injEq, Args.cons.injEq, true_and, and_true] at hx'
-        exact hna c t hx'.1
-      | ifthen c t hx' => simp at hx'
-      | once x' hx' => simp at hx'
-      | neg x' hx' => simp at hx'
+    simp only [List.length_cons] at h
+    have := disjuncts_ne_nil' b'
+    cases hd : SLD.disjuncts b' with
+    | nil => exact this hd
+    | cons x xs => rw [hd] at h; simp at h
   · rfl
 
+theorem disjuncts_horn (b : Term) {fl : Bool} (h : bodyS fl b = true) : SLD.disjuncts b = [b] :=
+  disjuncts_single (bodyS_single h)
+
+theorem conjuncts_semi (a b : Term) :
+    SLD.conjuncts (.app ";" (.cons a (.cons b .nil))) = [.app ";" (.cons a (.cons b .nil))] := by
+  simp [SLD.conjuncts, SLD.wrapVar]
+
+/-- a body of stage 2 is not a disjunction -/
+theorem bodyS_of_OK {b : Term} (h : bodyOK b = true) : bodyS false b = true := by
+  refine bodyS_mk (fun t ht => ?_) ?_
+  · simp only [bodyOK, List.all_eq_true] at h
+    rw [goalS_false]; exact h t ht
+  · unfold SLD.disjuncts
+    split
+    · rfl
+    · rename_i a b' _
+      exfalso
+      simp only [bodyOK, conjuncts_semi, List.all_cons, List.all_nil, Bool.and_true] at h
+      rcases cutGoal_cases h with h | h
+      · cases h
+      · rw [not_horn_reserved (by decide) (by decide)] at h; cases h
+    · rfl
 
 theorem dbodyS_of_body {fl : Bool} {b : Term} (h : bodyS fl b = true) : dbodyS fl b = true := by
   simp [dbodyS, disjuncts_horn b h, h]
@@ -461,14 +567,13 @@ theorem FragS.of_cut {prog : List Term} {query : Term} (h : CutFrag prog query) 
   ⟨fun c hc => by
       have := h.clauses c hc
       simp only [clauseOK, clauseS, Bool.and_eq_true] at this ⊢
-      exact ⟨this.1, dbodyS_of_body (by rw [bodyS_false]; exact this.2)⟩, dbodyS_of_body (by rw [bodyS_false]; exact h.goal), h.wf,
+      exact ⟨this.1, dbodyS_of_body (bodyS_of_OK this.2)⟩, dbodyS_of_body (bodyS_of_OK h.goal), h.wf,
     bodyOK_not_var h.goal, h.small⟩
 
 theorem FragS.mono {prog : List Term} {query : Term} (h : FragS false prog query) (s : Bool) : FragS s prog query := by
   have hb : ∀ b, bodyS false b = true → bodyS s b = true := by
     intro b hb
-    simp only [bodyS, List.all_eq_true] at hb ⊢
-    exact fun t ht => goalS_mono (hb t ht) s
+    exact bodyS_mk (fun t ht => goalS_mono (bodyS_all hb t ht) s) (bodyS_single hb)
   refine ⟨fun c hc => ?_, ?_, h.wf, h.nonvar, h.small⟩
   rotate_left
   · have := h.goal
@@ -480,57 +585,6 @@ theorem FragS.mono {prog : List Term} {query : Term} (h : FragS false prog query
   have h2 := this.2
   simp only [dbodyS, List.all_eq_true] at h2 ⊢
   exact fun dj hdj => hb dj (h2 dj hdj)
-
-/-- a body of the fragment is not a disjunction: the compiler sees ONE alternative -/
-theorem altBodies_toRep {s : Bool} (b : Term) (h : bodyS s b = true) : altBodies (toRep b) = [toRep b] := by
-  cases b with
-  | app f as =>
-    by_cases hf : f = "."
-    · subst hf
-      rw [toRep]; unfold mkApp; split
-      · split <;> simp [altBodies]
-      · simp [altBodies]
-    · rw [toRep_app_ne_dot _ _ hf]
-      unfold altBodies
-      split
-      · rename_i a b' heq
-        simp only [Rep.compound.injEq] at heq
-        obtain ⟨rfl, hargs⟩ := heq
-        cases as with
-        | nil => simp [toReps] at hargs
-        | cons x xs =>
-          cases xs with
-          | nil => simp [toReps] at hargs
-          | cons y ys =>
-            cases ys with
-            | nil =>
-              have : SLD.conjuncts (.app ";" (.cons x (.cons y .nil))) = [.app ";" (.cons x (.cons y .nil))] := by
-                simp [SLD.conjuncts, SLD.wrapVar]
-              simp only [bodyS, this, List.all_cons, List.all_nil, Bool.and_true] at h
-              have hx : ∃ c t, x = .app "->" (.cons c (.cons t .nil)) := by
-                rcases goalS_cases h with h | h
-                · cases h
-                rcases stepGoal_cases h with h | ⟨_, hc⟩
-                · rw [not_horn_reserved (by decide) (by decide)] at h; cases h
-                · cases hc with
-                  | call x' hx' => simp at hx'
-                  | ite c t e hx' =>
-                    simp only [Term.app.injEq, Args.cons.injEq, true_and, and_true] at hx'
-                    exact ⟨c, t, hx'.1⟩
-                  | ifthen c t hx' => simp at hx'
-                  | once x' hx' => simp at hx'
-                  | neg x' hx' => simp at hx'
-              obtain ⟨c, t, rfl⟩ := hx
-              simp only [toReps, RepList.cons.injEq] at hargs
-              obtain ⟨ha, hb, _⟩ := hargs
-              subst ha; subst hb
-              rw [toRep_app_ne_dot _ _ (by decide)]
-              simp only [toReps]
-              rw [toRep_app_ne_dot "->" _ (by decide)]
-              simp [toReps]
-            | cons _ _ => simp [toReps] at hargs
-      · rfl
-  | _ => simp [toRep, altBodies]
 
 theorem hornGoal_not_cut : hornGoal (.atom "!") = false := by
   simp only [hornGoal, Bool.or_eq_false_iff, beq_eq_false_iff_ne, ne_eq]
@@ -590,8 +644,9 @@ theorem bodyOK_goals {s : Bool} (b : Term) (h : bodyS s b = true) :
   rw [hts, List.mem_map] at hg
   obtain ⟨t, ht, rfl⟩ := hg
   have hh : goalS s (SLD.wrapVar t) = true := by
-    simp only [bodyS, List.all_eq_true, hconj] at h
-    exact h _ (List.mem_map_of_mem ht)
+    have := bodyS_all h
+    rw [hconj] at this
+    exact this _ (List.mem_map_of_mem ht)
   rw [goalTerm_toRep]
   rcases goalS_cases hh with hc | hc
   · have ht' : t = .atom "!" := by
@@ -609,6 +664,85 @@ theorem bodyOK_goals {s : Bool} (b : Term) (h : bodyS s b = true) :
     | int _ => simp [SLD.wrapVar, hornGoal, stepGoal, ctlGoal] at hc
     | flt _ => simp [SLD.wrapVar, hornGoal, stepGoal, ctlGoal] at hc
     | str _ => simp [SLD.wrapVar, hornGoal, stepGoal, ctlGoal] at hc
+
+/-! ### the alternatives of a body -/
+
+theorem toRep_eq_compound {t : Term} {f : String} {rs : RepList} (h : toRep t = .compound f rs) (hf : f ≠ ".") :
+    ∃ as, t = .app f as ∧ rs = toReps as := by
+  cases t with
+  | app g as =>
+    by_cases hg : g = "."
+    · subst hg
+      rw [toRep] at h; unfold mkApp at h
+      split at h
+      · split at h <;> cases h
+      · simp only [Rep.compound.injEq] at h; exact absurd h.1.symm hf
+    · rw [toRep_app_ne_dot _ _ hg] at h
+      simp only [Rep.compound.injEq] at h
+      obtain ⟨rfl, rfl⟩ := h
+      exact ⟨as, rfl, rfl⟩
+  | _ => simp [toRep] at h
+
+theorem toReps_eq_two {as : Args} {x y : Rep} (h : toReps as = .cons x (.cons y .nil)) :
+    ∃ a b, as = .cons a (.cons b .nil) ∧ x = toRep a ∧ y = toRep b := by
+  cases as with
+  | nil => simp [toReps] at h
+  | cons a as1 =>
+    cases as1 with
+    | nil => simp [toReps] at h
+    | cons b as2 =>
+      cases as2 with
+      | nil =>
+        simp only [toReps, RepList.cons.injEq, and_true] at h
+        exact ⟨a, b, rfl, h.1.symm, h.2.symm⟩
+      | cons _ _ => simp [toReps] at h
+
+theorem altBodies_semi (x y : Rep) :
+    altBodies (.compound ";" (.cons x (.cons y .nil))) =
+      match x with
+      | .compound "->" (.cons _ (.cons _ .nil)) => [.compound ";" (.cons x (.cons y .nil))]
+      | _ => x :: altBodies y := by
+  conv => lhs; unfold altBodies
+  rfl
+
+theorem altBodies_disj (b : Term) : altBodies (toRep b) = (SLD.disjuncts b).map toRep := by
+  fun_induction SLD.disjuncts b with
+  | case1 c t e =>
+    have e1 : toRep (Term.app ";" (Args.cons (Term.app "->" (Args.cons c (Args.cons t Args.nil))) (Args.cons e Args.nil))) =
+        .compound ";" (.cons (.compound "->" (.cons (toRep c) (.cons (toRep t) .nil))) (.cons (toRep e) .nil)) := by
+      rw [toRep_app_ne_dot _ _ (by decide)]
+      simp only [toReps]
+      rw [toRep_app_ne_dot "->" _ (by decide)]
+      simp only [toReps]
+    simp only [SLD.ifThenElse, SLD.mk2, List.map_cons, List.map_nil, e1]
+    rw [altBodies_semi]
+    rfl
+  | case2 a b hna ih =>
+    have e1 : toRep (Term.app ";" (Args.cons a (Args.cons b Args.nil))) =
+        .compound ";" (.cons (toRep a) (.cons (toRep b) .nil)) := by
+      rw [toRep_app_ne_dot _ _ (by decide)]
+      simp only [toReps]
+    rw [e1, altBodies_semi]
+    split
+    · rename_i x y heq
+      exfalso
+      obtain ⟨as, rfl, has⟩ := toRep_eq_compound heq (by decide)
+      obtain ⟨c, t, rfl, _, _⟩ := toReps_eq_two has.symm
+      exact hna c t rfl
+    · rw [ih]; rfl
+  | case3 t h1 h2 =>
+    unfold altBodies
+    split
+    · rename_i a b heq
+      exfalso
+      obtain ⟨as, rfl, has⟩ := toRep_eq_compound heq (by decide)
+      obtain ⟨x, y, rfl, _, _⟩ := toReps_eq_two has.symm
+      exact h2 x y rfl
+    · rfl
+
+/-- a body of the fragment is not a disjunction: the compiler sees ONE alternative -/
+theorem altBodies_toRep {s : Bool} (b : Term) (h : bodyS s b = true) : altBodies (toRep b) = [toRep b] := by
+  rw [altBodies_disj, disjuncts_horn b h]; rfl
 
 /-- the shape of the compiled form of a clause of the fragment -/
 structure HeadLayout (h : Term) (cl : Clause) (hargs : RepList) : Prop where
@@ -724,79 +858,87 @@ theorem horn_fact_layout {s : Bool} (c : Term) (hc : clauseC s c = true)
       ⟨wfs_headArgs _ hwf, by rw [hvars]; exact List.prefix_refl _, hnd, by rw [hn, hname], ?_, hargs, hh⟩, hcode⟩
     rw [har, ← hargs, absArgs_toList_length]
 
-/-! ### the alternatives of a body -/
-
-theorem toRep_eq_compound {t : Term} {f : String} {rs : RepList} (h : toRep t = .compound f rs) (hf : f ≠ ".") :
-    ∃ as, t = .app f as ∧ rs = toReps as := by
-  cases t with
-  | app g as =>
-    by_cases hg : g = "."
-    · subst hg
-      rw [toRep] at h; unfold mkApp at h
-      split at h
-      · split at h <;> cases h
-      · simp only [Rep.compound.injEq] at h; exact absurd h.1.symm hf
-    · rw [toRep_app_ne_dot _ _ hg] at h
-      simp only [Rep.compound.injEq] at h
-      obtain ⟨rfl, rfl⟩ := h
-      exact ⟨as, rfl, rfl⟩
-  | _ => simp [toRep] at h
-
-theorem toReps_eq_two {as : Args} {x y : Rep} (h : toReps as = .cons x (.cons y .nil)) :
-    ∃ a b, as = .cons a (.cons b .nil) ∧ x = toRep a ∧ y = toRep b := by
-  cases as with
-  | nil => simp [toReps] at h
-  | cons a as1 =>
-    cases as1 with
-    | nil => simp [toReps] at h
-    | cons b as2 =>
-      cases as2 with
-      | nil =>
-        simp only [toReps, RepList.cons.injEq, and_true] at h
-        exact ⟨a, b, rfl, h.1.symm, h.2.symm⟩
-      | cons _ _ => simp [toReps] at h
-
-theorem altBodies_semi (x y : Rep) :
-    altBodies (.compound ";" (.cons x (.cons y .nil))) =
-      match x with
-      | .compound "->" (.cons _ (.cons _ .nil)) => [.compound ";" (.cons x (.cons y .nil))]
-      | _ => x :: altBodies y := by
-  conv => lhs; unfold altBodies
-  rfl
-
-theorem altBodies_disj (b : Term) : altBodies (toRep b) = (SLD.disjuncts b).map toRep := by
-  fun_induction SLD.disjuncts b with
-  | case1 c t e =>
-    have e1 : toRep (Term.app ";" (Args.cons (Term.app "->" (Args.cons c (Args.cons t Args.nil))) (Args.cons e Args.nil))) =
-        .compound ";" (.cons (.compound "->" (.cons (toRep c) (.cons (toRep t) .nil))) (.cons (toRep e) .nil)) := by
-      rw [toRep_app_ne_dot _ _ (by decide)]
-      simp only [toReps]
-      rw [toRep_app_ne_dot "->" _ (by decide)]
-      simp only [toReps]
-    simp only [SLD.ifThenElse, SLD.mk2, List.map_cons, List.map_nil, e1]
-    rw [altBodies_semi]
+theorem disjuncts_plain' (a b : Term) (hna : ∀ c t, a = .app "->" (.cons c (.cons t .nil)) → False) :
+    SLD.disjuncts (.app ";" (.cons a (.cons b .nil))) = a :: SLD.disjuncts b := by
+  conv => lhs; unfold SLD.disjuncts
+  split
+  · rename_i c t e heq
+    simp only [Term.app.injEq, Args.cons.injEq, true_and, and_true] at heq
+    exact absurd heq.1 (fun h => hna c t h)
+  · rename_i a' b' _ heq
+    simp only [Term.app.injEq, Args.cons.injEq, true_and, and_true] at heq
+    obtain ⟨rfl, rfl⟩ := heq
     rfl
-  | case2 a b hna ih =>
-    have e1 : toRep (Term.app ";" (Args.cons a (Args.cons b Args.nil))) =
-        .compound ";" (.cons (toRep a) (.cons (toRep b) .nil)) := by
-      rw [toRep_app_ne_dot _ _ (by decide)]
-      simp only [toReps]
-    rw [e1, altBodies_semi]
+  · rename_i h2
+    exact absurd rfl (h2 _ _)
+
+/-- **the fragment (stage 4b)**: stage 4a + a disjunction `(A ; B)` that is not an if-then-else as a
+    GOAL, i.e. as a conjunct of a conjunction (`disjGoal`: `A` an atom or a compound term other than
+    `_ -> _`, NOT a variable; `B` any term whose top-level disjuncts are bodies at call time, see
+    `CallsOK`); a body with ONE alternative (`bodyS`) is a conjunction of goals that is not itself a
+    disjunction — a disjunction that is a whole body, a whole called goal or the whole query still
+    gives one alternative per disjunct (`dbodyS`).  This is `FragS true`, the fragment the proofs work
+    with: clause heads over user predicates; goals `!`, `true`, `=`/2, user predicates, `call/1..8`,
+    `once/1`, `\\+`/1, `(C -> T ; E)`, `(C -> T)`, `(A ; B)`.  Decidable. -/
+abbrev Ctl2Frag (prog : List Term) (query : Term) : Prop := FragS true prog query
+
+theorem ctl1_single {t : Term} (h : ctlGoal1 t = true) : (SLD.disjuncts t).length = 1 := by
+  unfold ctlGoal1 at h
+  split at h
+  · rfl
+  · rfl
+  · rfl
+  · rfl
+  · rfl
+  · cases h
+
+theorem callN_single {t : Term} (h : callNGoal t = true) : (SLD.disjuncts t).length = 1 := by
+  unfold callNGoal at h
+  split at h
+  · rfl
+  · cases h
+
+/-- a fragment by control goals `P` that are control goals of the proofs (`ctlGoal`) and not
+    disjunctions is part of the fragment `FragS true` the proofs work with -/
+theorem FragG.toS {P : Term → Bool} {prog : List Term} {query : Term} (hP : ∀ t, P t = true → ctlGoal t = true)
+    (hP2 : ∀ t, P t = true → (SLD.disjuncts t).length = 1)
+    (h : FragG P prog query) : FragS true prog query := by
+  have hg : ∀ t, goalG P t = true → goalS true t = true := by
+    intro t ht
+    simp only [goalG, goalS, stepGoal, Bool.or_eq_true, Bool.true_and] at ht ⊢
+    rcases ht with ht | ht | ht
+    · exact Or.inl ht
+    · exact Or.inr (Or.inl ht)
+    · exact Or.inr (Or.inr (hP t ht))
+  have hb : ∀ b, bodyG P b = true → bodyS true b = true := by
+    intro b hb
+    simp only [bodyG, List.all_eq_true] at hb
+    refine bodyS_mk (fun t ht => hg t (hb t ht)) ?_
+    unfold SLD.disjuncts
     split
-    · rename_i x y heq
-      exfalso
-      obtain ⟨as, rfl, has⟩ := toRep_eq_compound heq (by decide)
-      obtain ⟨c, t, rfl, _, _⟩ := toReps_eq_two has.symm
-      exact hna c t rfl
-    · rw [ih]; rfl
-  | case3 t h1 h2 =>
-    unfold altBodies
-    split
-    · rename_i a b heq
-      exfalso
-      obtain ⟨as, rfl, has⟩ := toRep_eq_compound heq (by decide)
-      obtain ⟨x, y, rfl, _, _⟩ := toReps_eq_two has.symm
-      exact h2 x y rfl
     · rfl
+    · rename_i a b' _
+      exfalso
+      have hc := hb (.app ";" (.cons a (.cons b' .nil))) (by rw [conjuncts_semi]; simp)
+      simp only [goalG, Bool.or_eq_true, beq_iff_eq] at hc
+      rcases hc with hc | hc | hc
+      · cases hc
+      · rw [not_horn_reserved (by decide) (by decide)] at hc; cases hc
+      · have := hP2 _ hc
+        rw [disjuncts_plain' _ _ (by assumption)] at this
+        simp only [List.length_cons] at this
+        have hne := disjuncts_ne_nil' b'
+        cases hd : SLD.disjuncts b' with
+        | nil => exact hne hd
+        | cons x xs => rw [hd] at this; simp at this
+    · rfl
+  have hd : ∀ b, dbodyG P b = true → dbodyS true b = true := by
+    intro b hb'
+    simp only [dbodyG, dbodyS, List.all_eq_true] at hb' ⊢
+    exact fun t ht => hb t (hb' t ht)
+  refine ⟨fun c hc => ?_, hd _ h.goal, h.wf, h.nonvar, h.small⟩
+  have := h.clauses c hc
+  simp only [clauseG, clauseS, Bool.and_eq_true] at this ⊢
+  exact ⟨this.1, hd _ this.2⟩
 
 end PrologVerif.Refine
